@@ -20,14 +20,16 @@ META = {
     "level": "exploration",
     "budget": {"quick": {"seconds": 60, "runs": 700},
                "thorough": {"seconds": 900, "runs": 10**9}},
-    "rule": ("one evaluation = one (API Generator/RandomState, distribution, shape, chunks, seed) x 3 computations "
+    "rule": ("one evaluation = one (API Generator/RandomState, distribution, shape, chunks, seed, way the seed is "
+             "given: constructor / RandomState.seed() / module-level da.random.seed(); seeds 0 and 1 over-sampled) x 3 computations "
              "under different entry points / simulated schedules / worker counts (incl. cloudpickle boundary) "
              "+ recomputation (+ fresh interpreter for a slice); or an unseeded pair computed together vs alone; "
              "or choice(replace=False); distinct = distinct (workload, event digests); non-trivial = >=2 "
              "blocks and >=2 jobs open at once"),
     "abstract_measure": "distinct (mode, api, distribution) triples",
     "gates": {"quick": {"seeded": 3000, "unseeded_pair": 1500, "choice_noreplace": 1000,
-                        "multi_open": 3000, "mp_boundary": 1000, "fresh_interpreter": 8},
+                        "multi_open": 3000, "mp_boundary": 1000, "fresh_interpreter": 8,
+                        "seeded_via_seed_method_zero": 20},
               "thorough": {"seeded": 3000}},
     "anchors": ["dask/array/random.py"],
     "real": ["dask.array.random Generator / RandomState / module-level API, _spawn_bitgens, random_state_data",
@@ -73,14 +75,25 @@ def chunks_for(tape, shape):
     return tuple(max(1, 1 + tape.draw(s, "chunk")) if s else 1 for s in shape)
 
 
-def build(api, dist, shape, chunks, seed, variant=0):
+def build(api, dist, shape, chunks, seed, variant=0, via=0):
     """variant != 0: the same seed/shape/chunks but another distribution parameter
-    (passed positionally or by keyword, as users do) -> must be a different array."""
+    (passed positionally or by keyword, as users do) -> must be a different array.
+    via (RandomState only): 0 seed given to the constructor, 1 RandomState().seed(seed),
+    2 the module-level da.random.seed(seed) followed by the module-level function."""
     import numpy as np
 
     import dask.array as da
 
-    rng = da.random.default_rng(seed) if api == "gen" else da.random.RandomState(seed)
+    if api == "gen":
+        rng = da.random.default_rng(seed)
+    elif via == 1:
+        rng = da.random.RandomState()
+        rng.seed(seed)
+    elif via == 2:
+        da.random.seed(seed)
+        rng = da.random
+    else:
+        rng = da.random.RandomState(seed)
     f = getattr(rng, dist)
     if dist in ("integers", "randint"):
         if variant == 1:
@@ -116,7 +129,7 @@ FRESH_SRC = r"""
 import sys, json
 sys.path.insert(0, {repo!r}); sys.path.insert(0, {verif!r})
 from checks.c28 import build
-a = build({api!r}, {dist!r}, tuple({shape!r}), tuple({chunks!r}), {seed!r})
+a = build({api!r}, {dist!r}, tuple({shape!r}), tuple({chunks!r}), {seed!r}, via={via!r})
 import numpy as np
 v = a.compute(scheduler="sync")
 print("RESULT " + json.dumps([a.name, str(v.dtype), v.tobytes().hex()]))
@@ -138,8 +151,9 @@ def run_one(tape, cfg):
         ndim = 1 + tape.draw(2, "ndim")
         shape = tuple(1 + tape.draw(cfg["maxdim"], "dim") for _ in range(ndim))
         chunks = chunks_for(tape, shape)
-        seed = tape.draw(10000, "seed")
-    wl = {"mode": mode, "api": api, "dist": dist, "shape": shape, "chunks": chunks, "seed": seed}
+        seed = tape.draw(10000, "seed") if tape.draw(6, "smallseed") else tape.draw(2, "seed01")
+        via = tape.draw(3, "via") if api == "rs" and mode == "seeded" else 0
+    wl = {"mode": mode, "api": api, "dist": dist, "shape": shape, "chunks": chunks, "seed": seed, "via": via}
     out.decoded = wl
     out.abstract = ((mode, api, dist),)
     out.probe({"seeded": "seeded", "unseeded_pair": "unseeded_pair", "choice": "choice_noreplace"}[mode])
@@ -195,8 +209,12 @@ def run_one(tape, cfg):
 
     try:
         if mode == "seeded":
-            a1 = build(api, dist, shape, chunks, seed)
-            a2 = build(api, dist, shape, chunks, seed)
+            a1 = build(api, dist, shape, chunks, seed, via=via)
+            a2 = build(api, dist, shape, chunks, seed, via=via)
+            if via:
+                out.probe("seeded_via_seed_method")
+                if seed == 0:
+                    out.probe("seeded_via_seed_method_zero")
             if a1.name != a2.name:
                 out.violate("seeded_names_differ", f"{wl}: names {a1.name} vs {a2.name}")
             else:
@@ -213,7 +231,7 @@ def run_one(tape, cfg):
                     # same seed, another distribution parameter: a different array, which must keep
                     # its own values when computed together with the first one
                     variant = 1 + tape.draw(2, "variant")
-                    sib = build(api, dist, shape, chunks, seed, variant=variant)
+                    sib = build(api, dist, shape, chunks, seed, variant=variant, via=via)
                     wl["sibling_variant"] = variant
                     out.probe("seeded_sibling")
                     solo = sib.compute(scheduler="sync")
@@ -227,7 +245,7 @@ def run_one(tape, cfg):
                     from sim import pin
 
                     src = FRESH_SRC.format(repo=pin.REPO, verif=pin.VERIF_DIR, api=api, dist=dist,
-                                           shape=list(shape), chunks=list(chunks), seed=seed)
+                                           shape=list(shape), chunks=list(chunks), seed=seed, via=via)
                     p = subprocess.run([sys.executable, "-c", src], capture_output=True, text=True,
                                        env=dict(os.environ, PYTHONHASHSEED="4711"), timeout=180)
                     line = [ln for ln in p.stdout.splitlines() if ln.startswith("RESULT ")]
